@@ -1,5 +1,5 @@
 import PikaVerif.Lemmas.Snd
-import PikaVerif.Lemmas.Shared
+import PikaVerif.Lemmas.Shared2
 /-!
 # C03 — sender adaptors deliver exactly one, correct completion signal
 
@@ -174,10 +174,89 @@ theorem C03_shared_no_lost_continuation_partial (s : Shared.St) (hr : SReach s) 
   obtain ⟨kind, ss, log, hl⟩ := hr
   exact ⟨(Shared.inv_of_accepted hl).finishedEmpty, (Shared.inv_of_accepted hl).runningNonempty⟩
 
-/- Full statement (not proved; the ghost-counter part of the invariant was cut for time):
-   theorem C03_split_each_consumer_once (s) (hr : SReach s) (hq : ∀ t, s.pc t = .idle ∨ s.pc t = .fin)
-     (hs : s.storesStopped = true) (hc : s.sig = some c ∨ s.pending = some c) :
-     ∀ k, s.phase k ≠ .unused → s.got k = 1 ∧ s.gotSig k = some (sigFor s.kind k c) -/
+/-- No thread is inside an operation (every invoked `start()` / completion call has returned). -/
+def SQuiet (s : Shared.St) : Prop := ∀ t, s.pc t = .idle ∨ s.pc t = .fin
+
+/-- **Each consumer exactly once** (the headline concurrent statement).  Over every accepted log
+    of the shared-state protocol of split / split_tuple / ensure_started — any number of threads
+    and consumers, every interleaving, predecessor completing on its own thread or inline in the
+    first consumer's `start()` — in the tree that stores the stopped completion: once a
+    completion `c` has been requested for the predecessor and all calls have returned, every
+    consumer whose `start()` was called has received exactly one signal, and it is the stored
+    completion (`sigFor`: the value / the element `k` of the tuple, the error, or stopped). -/
+theorem C03_split_each_consumer_once (s : Shared.St) (hr : SReach s) (hq : SQuiet s)
+    (hs : s.storesStopped = true) (c : Shared.Compl) (hc : s.sig = some c ∨ s.pending = some c) :
+    ∀ k, s.phase k ≠ .unused → s.got k = 1 ∧ s.gotSig k = some (Shared.sigFor s.kind k c) := by
+  obtain ⟨kind, ss, log, hl⟩ := hr
+  obtain ⟨hi, hsi, hp, hci, hri⟩ := Shared.full_of_accepted hl
+  intro k hk
+  have hidle : ∀ t, Shared.consOf (s.pc t) = none ∧ Shared.isProd (s.pc t) = false := by
+    intro t; rcases hq t with h | h <;> simp [h, Shared.consOf, Shared.isProd]
+  -- the consumer is not in the middle of `start()`
+  have hna : s.phase k ≠ .active := by
+    intro ha
+    have := hp.activeCons k ha
+    rw [(hidle _).1] at this; simp at this
+  -- hence `start_called` is set and the completion was signalled
+  have hst : s.started = true := by
+    cases h : s.started with
+    | true => rfl
+    | false => rcases hsi.notStartedPhase h k with h1 | h1 <;> contradiction
+  have hsig : s.sig = some c := by
+    rcases hc with h | h
+    · exact h
+    · exact hsi.pendSig c h hst
+  have hv : s.v = some c := by rw [hsi.sigV c hsig, hs, Shared.stored_true]
+  -- the predecessor's call has finished: the container is empty
+  have hne : s.pst ≠ .none := by
+    intro h; have := hsi.sigNone.mpr h; rw [hsig] at this; simp at this
+  have hfin : s.pst = .finished := by
+    cases hp' : s.pst with
+    | finished => rfl
+    | _ => exact absurd (hi.prodActive hne (by rw [hp']; simp)) (by rw [(hidle _).2]; simp)
+  have hnq : s.phase k ≠ .queued := by
+    intro hq'
+    have := (hci.contsQ k).mpr hq'
+    rw [hi.finishedEmpty hfin] at this; simp at this
+  have hg : s.phase k = .got := by
+    cases h : s.phase k <;> simp_all
+  refine ⟨by rw [hri.gotCount k, hg]; simp, hri.gotSigV k c hg hv⟩
+
+/-- **Never twice, never a wrong signal** — in every reachable state (no quiescence needed, both
+    code variants): a consumer has received at most one signal, and a received signal is the
+    stored completion. -/
+theorem C03_split_at_most_once (s : Shared.St) (hr : SReach s) (k : Nat) :
+    s.got k ≤ 1 ∧ (s.got k = 1 → ∃ c, s.v = some c ∧ s.sig = some c ∧
+      s.gotSig k = some (Shared.sigFor s.kind k c)) := by
+  obtain ⟨kind, ss, log, hl⟩ := hr
+  obtain ⟨hi, hsi, hp, hci, hri⟩ := Shared.full_of_accepted hl
+  have hgc := hri.gotCount k
+  refine ⟨by rw [hgc]; split <;> simp, ?_⟩
+  intro h1
+  have hg : s.phase k = .got := by
+    cases h : s.phase k <;> simp [h] at hgc <;> first | rfl | (rw [hgc] at h1; simp at h1)
+  have hd := hri.gotLate k hg
+  have hne : s.pst ≠ .none := by
+    intro h; have := hi.doneIff.mp hd; rw [h] at this; simp [Shared.PStage.rank] at this
+  cases hsig : s.sig with
+  | none => exact absurd (hsi.sigNone.mp hsig) hne
+  | some c =>
+    have hv := hsi.sigV c hsig
+    cases hvv : s.v with
+    | some c' =>
+      have : c' = c := by
+        rw [hvv] at hv; simp only [Shared.stored] at hv; split at hv <;> simp at hv; exact hv
+      subst this
+      exact ⟨c', rfl, rfl, hri.gotSigV k c' hg hvv⟩
+    | none =>
+      -- nothing stored (pinned tree, stopped): nobody can have received a signal
+      exact absurd hvv (hri.gotV k hg)
+
+/-- In the tree that stores the stopped completion the protocol never reaches `PIKA_UNREACHABLE`. -/
+theorem C03_split_no_abort (s : Shared.St) (hr : SReach s) (hs : s.storesStopped = true) :
+    s.aborted = false := by
+  obtain ⟨kind, ss, log, hl⟩ := hr
+  exact (Shared.full_of_accepted hl).sinv.noAbort hs
 
 /-- One consumer stores its continuation, then the predecessor completes with stopped: in the
     pinned tree the predecessor's thread aborts while running the continuation, the consumer
